@@ -137,9 +137,9 @@ def run(prog, rep, tier, cfg):
     evm_method_rules(prog, rep)
     # accept-any methods whose designated callers are enforced by hand-written gates (owned by other properties, re-evaluated here)
     from rules import Ctx
-    from props import c12, c13, c20, c08, c09
+    from props import c12, c13, c20, c08, c09, c06
     X = Ctx(prog, rep)
-    for (fn_, args) in ((c12.caller_gates, ('multisig:',)), (c13.beneficiary_gates, ('miner:',)), (c08.publish_gates, ('market:',)), (c09.verifier_gate, ('verifreg:',))):
+    for (fn_, args) in ((c12.caller_gates, ('multisig:',)), (c13.beneficiary_gates, ('miner:',)), (c08.publish_gates, ('market:',)), (c09.verifier_gate, ('verifreg:',)), (c06.withdraw_gates, ('market:',))):
         try:
             fn_(prog, rep, X, *args)
         except AnchorMissing as e:
